@@ -313,21 +313,23 @@ extern "C" void c42_families(void)
 }
 
 // ---- the widest CIDR network of a family: "::/0" denotes every IPv6 address.
-// KNOWN-FINDING candidate: this entry FAILS on the current code (acl_ip_data::DecodeMask turns a /0 prefix into the
-// "no mask" value via Ip::Address::applyMask(0, ...) -> setNoAddr(), so "::/0" is stored as the single host "::").
-// It is therefore not part of a tier (the other entries keep prefix lengths >= /26 and >= /120);
-// run it with  C42_ZERO_MASK=1 ./check C42 --entry c42_zero_mask
-extern "C" void c42_zero_mask(void)
+// It used to be stored as the single host "::" (Ip::Address::applyMask(0, ...) produced the all-ones
+// "no mask" value); repaired in /repo by the 'fix: a /0 CIDR mask ...' commit.
+static void zeroMask(const char *token, const bool v6)
 {
     vf_quiet();
-    cfgTok[0] = xstrdup("::/0"); cfgCount = 1; cfgNext = 0;
+    cfgTok[0] = xstrdup(token); cfgCount = 1; cfgNext = 0;
     Ip::Address probe;
-    (void)symbolicProbe(probe, true);
+    const bool probeV6 = vf_bool("probeV6");
+    (void)symbolicProbe(probe, probeV6);
     TestIpAcl acl;
     acl.parse();
     const bool got = acl.probe(probe);
     vf_observe("got", got);
-    vf_assert(got, "::/0 matches every IPv6 address");
-    vf_reach("match");
+    // (IPv4 clients are stored as v4-mapped IPv6 addresses, which "::/0" contains as well: nothing is demanded for them.)
+    if (probeV6 == v6) vf_assert(got, "a /0 network matches every address of its family");
+    vf_reach(got ? "match" : "nomatch");
     WITNESS_POINT();
 }
+extern "C" void c42_zero_mask(void) { zeroMask("::/0", true); }
+// ("0.0.0.0/0" is not examined: ACLIP::parseGlobal() documents it as a legacy spelling of 'all', matching both families.)
